@@ -17,7 +17,7 @@ Not decided: that run() of the scheme equals run() of the script (needs the pars
 from __future__ import annotations
 
 import ast
-from typing import Dict, List, Optional, Set, Tuple
+from typing import Any, Dict, List, Optional, Set, Tuple
 
 from sa import astctor, e7, g4, render
 from sa.cfg import CFG
@@ -143,7 +143,7 @@ def run(rep: Report, tier: str) -> None:  # noqa: C901
             rep.add(_finding("R25.2", key, a2s, ifn.lineno, f"the {sorted(names)} branch does not (increment its own counter exactly once, then append one item numbered by it): "
                                                            f"item ids would repeat or an item would be missing"))
     # rulesets / operators rendered from the whole node; labels
-    for fname, label in (("__generate_udo", "operator_definition"), ("__generate_ruleset", "ruleset_definition")):
+    for fname, label in (("__generate_udo", "operator_definition"),):
         f = P.func(f"{API}.{fname}")
         call = next((n for n in ast.walk(f.node) if isinstance(n, ast.Call) and any(k.arg == label for k in n.keywords)), None)
         rep.instance("R25.2", f"{fname}/{label}")
@@ -151,17 +151,44 @@ def run(rep: Report, tier: str) -> None:  # noqa: C901
         if not (".render(" in val and "ast=child" in val.replace(" ", "") and "pretty" not in val):
             rep.add(_finding("R25.2", f"{fname}/{label}", f, f.node.lineno, f"{label} is not the rendering of the whole definition node (it is `{val}`)"))
     gr = P.func(f"{API}.__generate_ruleset")
-    rt = next((n.value for n in ast.walk(gr.node) if isinstance(n, (ast.AnnAssign, ast.Assign)) and src(getattr(n, 'target', None) or n.targets[0]) == "ruleset_type"), None)
-    rep.instance("R25.2", "ruleset_type")
-    if not (isinstance(rt, ast.IfExp) and src(rt.test) == "isinstance(child, DPRuleset)" and src(rt.body) == "'datapoint'" and src(rt.orelse) == "'hierarchical'"):
-        rep.add(_finding("R25.2", "ruleset_type", gr, gr.node.lineno, f"ruleset_type is not 'datapoint' exactly for DPRuleset nodes and 'hierarchical' otherwise (it is `{src(rt) if rt is not None else None}`)"))
-    rs = next((n.value for n in ast.walk(gr.node) if isinstance(n, (ast.AnnAssign, ast.Assign)) and src(getattr(n, 'target', None) or n.targets[0]) == "ruleset_scope"), None)
-    rep.instance("R25.2", "ruleset_scope")
-    # the signature kinds the constructor stores are the grammar's VARIABLE / VALUE_DOMAIN texts
+    # decided by evaluating __generate_ruleset on model nodes (finite evaluator): kind x signature
+    from sa.e6 import Interp as _I, Raised as _Ra, Unmodelled as _Un
+    from sa.structmodel import _isinstance as _sm_isinstance
     sig_texts = {G.tokens.get("VARIABLE"), G.tokens.get("VALUE_DOMAIN")}
-    if not (isinstance(rs, ast.IfExp) and src(rs.test) == f"child.signature_type == {G.tokens.get('VARIABLE')!r}" and src(rs.body) == "'variable'" and src(rs.orelse) == "'valuedomain'"
-            and sig_texts == {"variable", "valuedomain"}):
-        rep.add(_finding("R25.2", "ruleset_scope", gr, gr.node.lineno, f"ruleset_scope does not follow the signature kind (grammar texts {sorted(x for x in sig_texts if x)}): `{src(rs) if rs is not None else None}`"))
+    if sig_texts != {"variable", "valuedomain"}:
+        raise AnalysisError(f"grammar texts of VARIABLE / VALUE_DOMAIN are {sig_texts}")
+
+    class _Node:
+        def __init__(self, cls_: str, sig: str) -> None:
+            self._cls, self.signature_type, self.name = cls_, sig, "rs_1"
+
+    class _Renderer:
+        def __init__(self, **kw: Any) -> None:
+            self.kw = kw
+
+        def render(self, ast: Any = None, **kw: Any) -> Any:  # noqa: A002
+            return ("RENDERED", ast, tuple(sorted(self.kw.items())))
+    for kind, cls_ in (("datapoint", "DPRuleset"), ("hierarchical", "HRuleset")):
+        for sig in sorted(sig_texts):
+            node = _Node(cls_, sig)
+            try:
+                got = _I(P, externals={"Ruleset": lambda **kw: kw, "ASTString": _Renderer,
+                                       "isinstance": _sm_isinstance}
+                         ).call(gr, {"child": node, "count": 7})
+            except (_Un, _Ra) as e:
+                raise AnalysisError(f"R25.2: __generate_ruleset outside the evaluator's language: {e}")
+            rep.instance("R25.2", f"ruleset/{kind}/{sig}", sample={k: (v if isinstance(v, str) else "…") for k, v in got.items()} if isinstance(got, dict) else None)
+            if not isinstance(got, dict):
+                raise AnalysisError("R25.2: __generate_ruleset does not return Ruleset(...)")
+            if got.get("ruleset_type") != kind:
+                rep.add(_finding("R25.2", "ruleset_type", gr, gr.node.lineno, f"a {cls_} node is given ruleset_type={got.get('ruleset_type')!r}: it must be 'datapoint' exactly for DPRuleset nodes and 'hierarchical' otherwise"))
+            if got.get("ruleset_scope") != sig:
+                rep.add(_finding("R25.2", "ruleset_scope", gr, gr.node.lineno, f"a ruleset whose signature is `{sig}` is given ruleset_scope={got.get('ruleset_scope')!r} (grammar texts {sorted(sig_texts)})"))
+            rd = got.get("ruleset_definition")
+            if not (isinstance(rd, tuple) and rd[0] == "RENDERED" and rd[1] is node and not any(k == "pretty" and v for k, v in rd[2])):
+                rep.add(_finding("R25.2", "__generate_ruleset/ruleset_definition", gr, gr.node.lineno, f"ruleset_definition is not the compact rendering of the whole definition node (it is `{rd!r}`)"))
+            if got.get("id") != "R7":
+                rep.add(_finding("R25.2", "ruleset_id", gr, gr.node.lineno, f"the ruleset numbered 7 gets the id {got.get('id')!r}"))
 
     # ---------------- R25.3 field coverage, compact mode ----------------
     rep.rule("R25.3", "compact mode: every semantic field of every constructed node class is read by the renderer")
